@@ -1,4 +1,5 @@
 """C06 — only the documented error families ever escape; every call terminates."""
+import json
 import random
 import re
 import signal
